@@ -175,11 +175,33 @@ func isRequestRead(c ssa.CallInstruction) bool {
 }
 
 func isFrameRead(c ssa.CallInstruction) bool {
+	_, ok := frameReader(c, 0)
+	return ok
+}
+
+// frameReader: the call reads one RESP frame - directly ((*resp.Reader).ReadValue / ReadMultiBulk)
+// or through a module helper that does so on a reader it is handed; returns the reader value at
+// this call site.
+func frameReader(c ssa.CallInstruction, depth int) (ssa.Value, bool) {
 	f := c.Common().StaticCallee()
-	if f == nil || (f.Name() != "ReadValue" && f.Name() != "ReadMultiBulk") || f.Signature.Recv() == nil {
-		return false
+	if f == nil || len(c.Common().Args) == 0 {
+		return nil, false
 	}
-	return world.TypeIs(f.Signature.Recv().Type(), "tidwall/resp", "Reader")
+	if (f.Name() == "ReadValue" || f.Name() == "ReadMultiBulk") && f.Signature.Recv() != nil && world.TypeIs(f.Signature.Recv().Type(), "tidwall/resp", "Reader") {
+		return c.Common().Args[0], true
+	}
+	if depth < 2 && world.InModule(f) && f.Blocks != nil {
+		for _, c2 := range world.Calls(f) {
+			if rd, ok := frameReader(c2, depth+1); ok {
+				for i, p := range f.Params {
+					if rd == ssa.Value(p) && i < len(c.Common().Args) {
+						return c.Common().Args[i], true
+					}
+				}
+			}
+		}
+	}
+	return nil, false
 }
 
 // connLoop finds the connection loop: the function that reads request messages
